@@ -148,9 +148,14 @@ impl Project for FileBackedProject {
     }
 
     fn semantic(&mut self) -> Result<(), Vec<Diagnostic>> {
-        let library_results: Vec<_> = self
-            .sources
-            .iter_mut()
+        // The sources are kept in a hash map. Analyze them in the order of
+        // their file identifiers so that the result (which of several problems
+        // is reported first, which of two declarations with the same name is
+        // the first one) is the same in every run.
+        let mut sources: Vec<_> = self.sources.iter_mut().collect();
+        sources.sort_by_key(|source| source.0.to_string());
+        let library_results: Vec<_> = sources
+            .into_iter()
             .map(|source| source.1.library())
             .collect();
 
